@@ -17,7 +17,7 @@ that test true and !allow_partial, InsufficientCoins by `collected < target` and
 non-zero amount); random_improve truncates the candidate list to max before selecting and falls back
 to largest_first; (4) AssetsQuery: coins_iter / messages_iter drop ids contained in the exclude set
 before the lookup, read only the ids owned by self.owner, keep only allowed assets and non-retryable
-messages.
+messages. (5) skip_big_coins_up_to_amount: the budget starts at the selected dust total, the coin amount is subtracted from it and the reduced budget is written back inside the predicate.
 """
 NOT_DECIDED = """Totals, duplicates and optimality (values of amounts); that the index iterator only yields unspent coins of the
 owner/asset (depends on the index contents, C36); randomness of max_dust_count / shuffle."""
